@@ -307,6 +307,31 @@ def gen_locs(n):
     return g
 
 
+def h_identity(I, job):
+    """IdentityProjection (what every default factory applies to each location): range check and degrees"""
+    from irparse import FloatTy
+    from llsym import RealF
+    I.fp_model = 'real'
+    x = I.named_signed('x', 32, -(1 << 31), (1 << 31) - 1); y = I.named_signed('y', 32, -(1 << 31), (1 << 31) - 1)
+    out = I.new_obj(16, 'out', 'heap')
+    rc = I.concretize(I.call('@verif_identity_projection', [x, y, out]), 'rc'); I.observe('rc', rc)
+    xs, ys = I.sterm(x, 32), I.sterm(y, 32)
+    valid = z3.And(xs >= -1800000000, xs <= 1800000000, ys >= -900000000, ys <= 900000000)
+    if rc == 1:
+        I.obligation(z3.Not(valid), 'spurious-error', 'a valid location is rejected by the projection'); I.reach('rejected')
+    else:
+        I.obligation(valid, 'invalid-location-accepted', 'a location outside +-180 / +-90 degrees (or undefined) is encoded instead of being rejected with invalid_location')
+        cx, cy = I.load(out, FloatTy('double')), I.load(out + 8, FloatTy('double'))
+        if getattr(I, 'native', False) or (isinstance(cx, float) and isinstance(cy, float)):        # native replay / concrete validation run
+            vx, vy = [v - (1 << 32) if v >= (1 << 31) else v for v in (I.concretize(x, 'x'), I.concretize(y, 'y'))]
+            if cx != vx / 10000000.0 or cy != vy / 10000000.0: raise Finding('coordinates', 'projected coordinates %r, %r are not lon = x / 10^7, lat = y / 10^7' % (cx, cy))
+        else:
+            if not (isinstance(cx, RealF) and isinstance(cy, RealF)): raise Finding('coordinates', 'projected coordinates do not depend on the location')
+            I.obligation(z3.And(cx.t * 10000000 == z3.ToReal(xs), cy.t * 10000000 == z3.ToReal(ys)), 'coordinates', 'projected coordinates are not lon = x / 10^7, lat = y / 10^7 (exact rational reading of the division)')
+        I.reach('accepted')
+    I.reach('end')
+
+
 def harnesses(tier):
     global FITLEN
     q = tier == 'quick'
@@ -329,6 +354,10 @@ def harnesses(tier):
     hs.append(Harness('wkb', 'geom', h_wkb, jobs=wj, opaque_fp=True, reach=('end', 'ok'),
                       desc='real WKBFactoryImpl (WKB / EWKB, binary / hex) read back by an independent WKB reader, also on a factory object that has rejected degenerate objects before: type words, SRID, back-patched counts equal the encoded elements, coordinates in order',
                       bounds='ways of <= 4 nodes, one area with 3 rings', wall=900))
+    hs.append(Harness('identity_projection', 'geom', h_identity, mode='INT', reach=('end', 'accepted', 'rejected'),
+                      tests=[dict(x=1800000000, y=900000000), dict(x=1800000001, y=0), dict(x=0, y=-900000001), dict(x=2147483647, y=2147483647), dict(x=-5, y=7)],
+                      desc='IdentityProjection (the default projection of the WKB, WKT and GeoJSON factories) on every int32 x, y: invalid_location iff the location is outside +-180 / +-90 degrees or undefined; otherwise lon = x / 10^7 and lat = y / 10^7',
+                      bounds='none on x, y (all 2^64 locations); the double division is read as an exact rational (the native replay compares against the IEEE quotient)'))
     hs.append(Harness('double2string', 'geom', h_double2string, jobs=[dict(prec=p) for p in ((0, 1, 7, 17) if q else range(0, 18))], setup=install_snprintf, reach=('end',),
                       desc='double2string under the C11 contract of snprintf("%.*f"): arbitrary text of the right shape and arbitrary reported length (1 .. longest text of a finite double): output = the text with trailing zeros removed only behind a decimal point; a reported length beyond the internal buffer must not be used',
                       bounds='precision %s; complete texts up to %d characters; reported length <= 310 + precision + 1 (longest text of a finite double)' % ('0, 1, 7, 17' if q else '0..17', FITLEN), sanitize=True, wall=900,
